@@ -50,7 +50,7 @@ def case_strategy(tier: str):
         'tree': st.lists(node_strategy(tier), max_size=5),
         'opts': options_strategy(),
         'opts2': options_strategy(),
-        'delivery': st.sampled_from(['str', 'chunks', 'file', 'lines']),
+        'delivery': st.sampled_from(['str', 'chunks', 'file', 'lines', 'chars', 'special']),
         'cuts': st.lists(st.integers(0, 1 << 16), max_size=8),
     })
 
@@ -117,7 +117,12 @@ def deliver(text: str, mode: str, cuts):
         return io.StringIO(text)
     if mode == 'lines':
         return text.splitlines(keepends=True)
-    pos = sorted({c % (len(text) + 1) for c in cuts})
+    if mode == 'chars':
+        return list(text)
+    if mode == 'special':     # a chunk boundary in front of every syntax-relevant character
+        pos = [i for i, ch in enumerate(text) if ch in '\ufeff\\"\r\n/{}[]']
+    else:
+        pos = sorted({c % (len(text) + 1) for c in cuts})
     chunks = []
     last = 0
     for p in pos:
@@ -199,7 +204,7 @@ def execute(desc, ctx):
 SUBCHECKS = [
     Sub('roundtrip', execute, strategy=case_strategy, quick=4000, thorough=240000, floor=50,
         must_hit=('block', 'esc', 'esc_block_name', 'empty_block', 'unicode',
-                  'delivery:chunks', 'delivery:file', 'delivery:lines')),
+                  'delivery:chunks', 'delivery:file', 'delivery:lines', 'delivery:chars', 'delivery:special')),
 ]
 
 MATCHERS = {}
